@@ -2,7 +2,7 @@
    fails to compile if Props/C12.v is weakened, renamed or given other hypotheses. *)
 From Coq Require Import SpecFloat.
 Require Import Base Value Float PrintOptions ParseOptions Reader Scan Num Parser DatumProofs DepthProofs.
-Require Import ReaderProofs TokenProofs RoundtripProofs TriviaProofs.
+Require Import ReaderProofs TokenProofs RoundtripProofs TriviaProofs ElispRoundtrip ElispTrivia.
 Require Import Lexpr.Props.C12.
 
 Check (C12_four_ways :
@@ -38,6 +38,24 @@ Check (C12_trivia_insensitive_partial :
   trivia pre2 -> trivia_eof post2 -> lok ryu alpha l2 -> (ldepth l2 <= 127)%nat -> lval l1 = lval l2 ->
   from_trait default_ro alpha fast std_parse k (bytes_events (pre1 ++ ltxt ryu l1 ++ post1)) =
   from_trait default_ro alpha fast std_parse k (bytes_events (pre2 ++ ltxt ryu l2 ++ post2))).
+
+Check (C12_trivia_elisp_sequence_partial :
+  forall ryu alpha fast std_parse ls first post fuel n r D,
+  eseq_ok ryu first D ls -> trivia_eof post -> D <= 128 ->
+  (length (seq_eltxt ryu ls post) + 16 + 2 <= fuel)%nat -> (length ls < n)%nat -> at_bytes r (seq_eltxt ryu ls post) ->
+  iterate_values elisp_ro alpha fast std_parse fuel n (mkp r D) = map (fun pl => POk (elval (snd pl))) ls).
+
+Check (C12_trivia_elisp_value_partial :
+  forall ryu alpha fast std_parse k l pre post,
+  trivia pre -> trivia_eof post -> elok ryu l -> (ldepth l <= 127)%nat ->
+  from_trait elisp_ro alpha fast std_parse k (bytes_events (pre ++ eltxt ryu l ++ post)) = POk (elval l)).
+
+Check (C12_trivia_elisp_nonvacuous :
+  elok (fun _ => []) c12_elayout /\ (ldepth c12_elayout <= 127)%nat /\
+  eltxt (fun _ => []) c12_elayout = s2b "[1 ;c" ++ [10] ++ s2b " 2" ++ [9] ++ s2b "(t . nil)" ++ [13] ++ s2b "]" /\
+  elval c12_elayout = Vector [Number (PosInt 1); Number (PosInt 2); Cons (Symbol (s2b "t")) Null] /\
+  forall k, from_trait elisp_ro (fun _ => true) true dec_to_f64 k (bytes_events (eltxt (fun _ => []) c12_elayout)) =
+            POk (elval c12_elayout)).
 
 Check (C12_layout_of_printed :
   forall ryu v, ltxt ryu (LAtom v) = TextProofs.txt ryu v /\ lval (LAtom v) = v).
